@@ -124,7 +124,7 @@ def wc_gradient_descent_quadratics(mu, L, gamma, n, wrapper="cvxpy", solver=None
 
     # Solve the PEP
     pepit_verbose = max(verbose, 0)
-    pepit_tau = problem.solve(verbose=pepit_verbose)
+    pepit_tau = problem.solve(wrapper=wrapper, solver=solver, verbose=pepit_verbose)
 
     # Compute theoretical guarantee (for comparison)
     t = 1 / (L * gamma * (2 * n + 1))
